@@ -9,15 +9,30 @@ CHECKS = {
  "C02": ("seqx", "4 C02", "explicit-state BFS over login/refresh histories with a 37-element adversarial ID-token grammar as provider answers; independent stdlib JWS verifier as oracle",
          "Every SetTokenResponse in every explored history stores a token the simulated provider returned in that check (or the one already bound) that passes an independent signature/audience/nonce validator; every OK forwards exactly the bound tokens under the configured header/preamble.",
          "Grammar-bounded: validly signed non-compact serialisations and whitespace-wrapped tokens are outside it; handler-level."),
+ "C03": ("enumx", "4 C03", "bounded-exhaustive enumeration of complete browser flows (provider answer shapes x configurations x targets) on the real handler with a redirect-following driver",
+         "Full product of 48 compliant provider answer shapes x 48 configurations x targets: one authorization request, one code exchange, post-callback Location equals the URL first requested, then OK with the provider's tokens, and every tail request inside token lifetime is OK with no further authorization request.",
+         "Handler-level flows; trigger rules and loader are covered at server level elsewhere; token lifetime 60 s virtual."),
  "C05": ("seqx", "4 C05", "explicit-state BFS with the real random id generator; ghost sets of presented/issued ids; RFC 6265 Set-Cookie parser as oracle",
          "In every explored history (depth 6/7, 3 cookie prefixes, memory+Redis) each login redirect issues an id never presented or issued before and leaves nothing under the presented id; tokens/login state are only stored under issued ids; every Set-Cookie is __Host-, Path=/, no Domain, Secure, HttpOnly, SameSite; logout expires it.",
          "Handler-level; prefixes are RFC 6265 tokens."),
+ "C08": ("enumx", "4 C08", "bounded-exhaustive enumeration of chain lists x header maps against an independent reference evaluator on the real ExtAuthZFilter.Check (mock and real OIDC filters)",
+         "All chain lists of length 0..3 (filter sequences <=2 quick, <=3 plus length-4 lists thorough) x allow_unmatched x 6 header maps: status code, answering filter and number of OIDC filters reached equal the reference (first matching chain, conjunction with short-circuit, default deny).",
+         "Alphabet-bounded; lower-case request header names."),
  "C11": ("seqx", "4 C11", "explicit-state BFS from the logged-in state over many token lifetimes against a ledger-keeping provider; reference merge as oracle",
          "Every refresh-grant request in every explored history (depth 9/12) carries the provider's current refresh token and the client credentials; on an honest 200 the stored and forwarded result equals the reference merge; on any failure the request is denied, the stale session is gone and a re-login redirect with a new cookie is answered.",
          "Unparsable id_token in a refresh answer is outside the alphabet; expiry compared with 10 s tolerance."),
+ "C13": ("enumx", "4 C13", "bounded-exhaustive enumeration of client ids/scopes/URIs/targets judged by a hand-written RFC 3986 splitter and form decoder",
+         "Full product (1512 / 3024 cases): the login Location splits into the configured authorization endpoint plus exactly the required parameters, each decoding to the configured/issued value; the post-login Location equals the first requested URL byte for byte; both redirects carry no-cache.",
+         "Independent parser instead of net/url; exotic callback URIs are judged on the redirect_uri parameter only."),
  "C14": ("seqx", "4 C14", "explicit-state BFS over the union alphabet (faults, failing/forged provider answers, near-miss callbacks) with a marker-search monitor over every serialised answer",
          "No denied/redirect answer of any explored history contains the client secret, a PKCE verifier, a refresh/access/ID token or client_id:secret in raw, escaped, hex or base64 (3 alignments) form; OK answers add only the configured token headers.",
          "Encodings searched are the listed ones; logs are not answers."),
+ "C15": ("enumx", "4 C15", "deviation-bounded enumeration of request shapes, token-endpoint answers (singles+pairs, triples thorough), key documents and store answers with recover() as oracle",
+         "No case of the grammar (2980 quick / 22650 thorough) makes Process or Check panic, and every verdict is well-formed (status set, body arm consistent); follow-up requests read back whatever was stored.",
+         "Grammar-bounded; coverage-guided mutation not claimed."),
+ "C17": ("enumx", "4 C17", "deviation-bounded enumeration of configuration documents (singles+pairs over 3 base shapes, triples thorough, fixture member deletions) through the real loader with an independent post-condition predicate",
+         "Every generated document (55k quick / 117k thorough) is either rejected with an error or yields a Config satisfying the safety predicate (resolved filters, openid scope, non-root callback, distinct logout path, client id/secret, ID-token header, endpoints or discovery, <=1 OIDC filter per chain, scalar merge = override-else-default); no panic.",
+         "Repeated fields are not compared in the merge check; syntactically broken JSON is left to the decoder."),
  "C07": ("enumx", "4 C07", "bounded-exhaustive enumeration of rule sets x targets against a reference evaluator on the real ExtAuthZFilter.Check",
          "All rule sets of the pattern grammar (<=1/<=1 patterns per rule + pairs quick; <=2/<=2 thorough) x 84 targets: verdict equals the documented function of the path and is invariant under any ?query/#fragment tail.",
          "Alphabet of 37 patterns / 84 targets; 'randomly beyond' not claimed."),
